@@ -14,7 +14,7 @@ CHECKS = {
     ),
 
     "C07": (
-        "exhaustive enumeration: all dates x critical times, all seconds / microseconds of the day (thorough: all 8.64e10 µs), full validity grid, against i128 floor arithmetic",
+        "exhaustive enumeration: all dates x critical times, all seconds / microseconds of the day (thorough: all 8.64e10 µs), full validity grid, against i128 floor arithmetic; model-free pairwise history independence over the operation table / field accessors (fresh-thread pairs of a small alphabet, back-to-back pairs of a large one, against the lone call)",
         "Every date crossed with every critical time of day (both sides of midnight, noon and each rounding midpoint, plus a seed-derived time) is combined into a timestamp on the real code and split again; every second of the day, every microsecond at selected seconds (thorough: every microsecond of the day) and the complete (h,mi,s,µs) validity grid including u32 extremes go through the time-of-day constructors; results are compared with integer floor arithmetic and the calendar walker, and Eq/Ord/Hash are checked along the enumeration order.",
         "Trusted: reference walker and i128 arithmetic; std DefaultHasher. Timestamps at times of day outside the critical set are covered only through the seed-derived time per date.",
         "DESIGN.md §4 C07",
@@ -39,43 +39,43 @@ CHECKS = {
     ),
 
     "C02": (
-        "explicit-state BFS closure over the complete op table (depth 3 quick / 4 thorough, deduplicated by value) plus a flat sweep of all dates x 25 operations x 3 types; invariant: every returned value in its documented range; integers of every width handed over by serde's value deserializers and raw bincode integers: an out-of-range number must be an error, never a wrapped or clamped value",
+        "explicit-state BFS closure over the complete op table (depth 3 quick / 4 thorough, deduplicated by value) plus a flat sweep of all dates x 25 operations x 3 types; invariant: every returned value in its documented range; integers of every width handed over by serde's value deserializers and raw bincode integers: an out-of-range number must be an error, never a wrapped or clamped value; model-free pairwise history independence over the operation table / field accessors (fresh-thread pairs of a small alphabet, back-to-back pairs of a large one, against the lone call)",
         "From boundary pools of the six types every safe public operation (constructors, conversions, all add/sub variants, last day of month, 24 trunc/round methods, negate, float scaling, format->parse) is applied with every operand of the operand alphabets, successors are deduplicated and expanded again to the depth bound; every returned value must lie inside the documented range of its type, and wherever an exact i128 / calendar result exists and lies outside the range the call must fail instead of returning a wrapped or clamped value. The flat sweep applies all trunc/round/last-day operations to every date on the three types.",
         "Trusted: documented ranges typed in from the property; reference steps in optable.rs. States not reachable within the depth bound from the pools are not covered; float-operand operations only get the range invariant here (C08/C14/C16 decide their values).",
         "DESIGN.md §4 C02",
     ),
     "C08": (
-        "BFS closure restricted to linear operations in exact lock step with i128 arithmetic, full cross product of typed boundary pools for every linear operation with inverse laws, all dates x day offsets, exact-rational band for fractional days",
+        "BFS closure restricted to linear operations in exact lock step with i128 arithmetic, full cross product of typed boundary pools for every linear operation with inverse laws, all dates x day offsets, exact-rational band for fractional days; model-free pairwise history independence over the operation table / field accessors (fresh-thread pairs of a small alphabet, back-to-back pairs of a large one, against the lone call)",
         "Every linear operation (date +/- days, date/timestamp +/- time and day-time interval, all difference variants, interval +/- interval) is executed on the real code for the full cross product of the boundary pools and for every transition of the closure, and must equal exact 128-bit arithmetic: Ok(exact) iff the exact result is inside the result type's range, Err otherwise; x+i-i = x, (x+i)-x = i and a-b = -(b-a) are checked through the real code; every date is crossed with day offsets reaching exactly and one past each range end; Timestamp::add_days/sub_days is compared with the exact rational product rounded to the nearest microsecond.",
         "Trusted: i128 arithmetic, exact.rs rational arithmetic. i64 operands that are neither pool members nor reachable in the closure are not covered.",
         "DESIGN.md §4 C08",
     ),
     "C12": (
-        "exhaustive enumeration: every second of the day x boundary microseconds x interval alphabet x add/sub; pool^2 differences; interval->time conversion; mixed comparisons, against rem_euclid in i128; thorough: the complete product of every second of the day x every whole-second interval within +/-1 day, and every pair of seconds for the difference",
+        "exhaustive enumeration: every second of the day x boundary microseconds x interval alphabet x add/sub; pool^2 differences; interval->time conversion; mixed comparisons, against rem_euclid in i128; thorough: the complete product of every second of the day x every whole-second interval within +/-1 day, and every pair of seconds for the difference; model-free pairwise history independence over the operation table / field accessors (fresh-thread pairs of a small alphabet, back-to-back pairs of a large one, against the lone call)",
         "Every second of the day (at µs 0, 1, 999999) is combined with every member of the interval alphabet (0, +/-1 µs, +/-1 day -/+ 1 µs, whole days, the range limits, seed-derived values) through add and sub on the real code and compared with (time +/- interval) mod 24h; all ordered pairs of the time pool and every second against midnight/noon/last µs give the exact signed difference; every second within +/-2 days converts to |interval| mod 1 day; all six comparison operators in both argument orders equal the numeric comparison.",
         "Trusted: i128 rem_euclid. Intervals outside the alphabet and the +/-2-day second grid are not enumerated.",
         "DESIGN.md §4 C12",
     ),
     "C13": (
-        "exhaustive enumeration of all 2^32 month counts (every one of the 4,272,000,001 year-month intervals), structured day-time interval set, every second within +/-2 days (thorough: +/-40), full constructor validity grids",
+        "exhaustive enumeration of all 2^32 month counts (every one of the 4,272,000,001 year-month intervals), structured day-time interval set, every second within +/-2 days (thorough: +/-40), full constructor validity grids; model-free pairwise history independence over the operation table / field accessors (fresh-thread pairs of a small alphabet, back-to-back pairs of a large one, against the lone call)",
         "Every i32 goes through try_from_months (accepted iff within +/-2,136,000,000); for every accepted value extract, the field constructor, negation (involution, range onto itself), the signed accessors and ordering are compared with integer division; day-time intervals at every power of ten and unit multiple +/-1, every second within the bound, the range limits and i64 extremes get the same treatment; the constructor grids including u32 extremes must accept exactly the tuples whose fields are in bounds and whose total is within the limit.",
         "Trusted: i128 division. Day-time interval values outside the structured set are not enumerated (the i64 space is not enumerable).",
         "DESIGN.md §4 C13",
     ),
     "C14": (
-        "exhaustive cross product of receiver pools x a float operand alphabet (special values, integers, dyadic and decimal grids, tiny/huge, signed zero, infinities, NaN) x mul/div, judged by exact rational arithmetic with a 2^-52 band; complete product of a window of counts (+/-120, thorough +/-1200, as months and microseconds) x every multiple of 1/16 in +/-32 (thorough +/-256)",
+        "exhaustive cross product of receiver pools x a float operand alphabet (special values, integers, dyadic and decimal grids, tiny/huge, signed zero, infinities, NaN) x mul/div, judged by exact rational arithmetic with a 2^-52 band; complete product of a window of counts (+/-120, thorough +/-1200, as months and microseconds) x every multiple of 1/16 in +/-32 (thorough +/-256); model-free pairwise history independence over the operation table / field accessors (fresh-thread pairs of a small alphabet, back-to-back pairs of a large one, against the lone call)",
         "Each (receiver, operand, operation) triple runs on the real code; the reference decodes the double into sign/mantissa/exponent and computes the real product or quotient as an exact rational; a returned value must be the truncation toward zero of a number within relative 2^-52 of it, exactly x*k when that is an exactly representable integer below 2^53, and errors must be classified as the property states (NaN -> invalid number, infinite result -> numeric overflow, zero divisor -> divide by zero first, finite out-of-range -> interval range); (-x)*k = -(x*k) = x*(-k) is compared directly.",
         "Trusted: refmodel/exact.rs (big-integer rational arithmetic, unit-tested). Only the operand alphabet is covered, not all doubles; exactness beyond the 2^-52 band is demanded for multiplication only, as the property states. Two-step call histories over a small structured alphabet run on fresh threads. A finite real result beyond the double range may be reported as numeric overflow or as an interval-range error (both readings of the wording are admitted).",
         "DESIGN.md §4 C14",
     ),
     "C16": (
-        "exhaustive enumeration of all dates x whole-second critical times x 5 sub-second parts for the conversions; BFS closure with the whole-second invariant on every Oracle-date result; pool cross products; exact-rational nearest-second and correctly-rounded-double oracles",
+        "exhaustive enumeration of all dates x whole-second critical times x 5 sub-second parts for the conversions; BFS closure with the whole-second invariant on every Oracle-date result; pool cross products; exact-rational nearest-second and correctly-rounded-double oracles; model-free pairwise history independence over the operation table / field accessors (fresh-thread pairs of a small alphabet, back-to-back pairs of a large one, against the lone call)",
         "Every conversion of a timestamp to the Oracle-style date (all dates, critical seconds, sub-second 0/1/499999/500000/999999, also before 1970) must floor to the second; every Oracle-style date produced anywhere in the op-table closure must be a whole second inside the range and equal the exact reference where one exists; adding intervals must equal the timestamp result floored; add_days/sub_days (and the Timestamp::oracle_* variants) must be the nearest second of the exact-rational timestamp result at base dates over the whole range; sub_date must be the correctly rounded quotient for pool^2 and all dates against first/epoch/last. The raw constructor may reject an instant with a sub-second part or floor it; fractional-day sums that lie less than half a second before the first instant may fail or round to the first second (both admitted by the wording).",
         "Trusted: exact.rs; day-offset alphabet and base dates are a subset of the f64 x i64 space. One small sub-check (OracleDate::now() and TryFrom<Time> under 210 injected clocks with sub-second parts) uses the verif-hooks clock override.",
         "DESIGN.md §4 C16",
     ),
     "C17": (
-        "exhaustive differential enumeration: all dates x every shared operation through Date, Timestamp@00:00 and OracleDate@00:00; all dates x whole-second critical times through Timestamp and OracleDate; mixed comparisons in both argument orders",
+        "exhaustive differential enumeration: all dates x every shared operation through Date, Timestamp@00:00 and OracleDate@00:00; all dates x whole-second critical times through Timestamp and OracleDate; mixed comparisons in both argument orders; model-free pairwise history independence over the operation table / field accessors (fresh-thread pairs of a small alphabet, back-to-back pairs of a large one, against the lone call)",
         "For every date each shared operation (24 trunc/round, last day of month, +/- year-month and day-time intervals, +/- time, all difference variants) is executed through each of the types and the results must correspond under the embeddings (Err <=> Err included); every date at every whole-second critical time is run through Timestamp and OracleDate; all six comparison operators and partial_cmp for Date/Timestamp, Date/OracleDate and OracleDate/Timestamp in both argument orders must equal the comparison of the converted values.",
         "No reference model: purely differential, so it cannot see a defect shared by all types (C09-C11 cover those).",
         "DESIGN.md §4 C17",
@@ -101,7 +101,7 @@ CHECKS = {
     ),
 
     "C03": (
-        "exhaustive no-panic exploration in two build profiles (fast; checked = overflow-checks + debug-assertions, run as a child process): op-table BFS closure with scalar extremes, all dates / seconds / microseconds through accessors and tokens, every picture string of length <= 5 (thorough 6), every input of length <= 4 under every single token and <= 3 under every token pair (thorough 5 / 4) for all six types, run-length families 0..=600",
+        "exhaustive no-panic exploration in two build profiles (fast; checked = overflow-checks + debug-assertions, run as a child process): op-table BFS closure with scalar extremes, all dates / seconds / microseconds through accessors and tokens, every picture string of length <= 5 (thorough 6), every input of length <= 4 under every single token and <= 3 under every token pair (thorough 5 / 4) for all six types, run-length families 0..=600; model-free pairwise history independence over the operation table / field accessors (fresh-thread pairs of a small alphabet, back-to-back pairs of a large one, against the lone call)",
         "Every call is wrapped in catch_unwind and only 'returns normally' is asserted, so the bound is pure coverage: the complete op table from boundary pools with NaN / infinities / extreme integers, the complete value spaces of dates, seconds and microseconds, the complete bounded languages of pictures and of inputs per token and token pair (which drive every field parser from every short input and every flag interaction between two fields), and every length of blank / digit / hyphen / multi-byte / letter runs as picture and as input. The same exploration is repeated on a build with overflow checks and debug assertions, where every arithmetic wrap in the crate becomes a panic.",
         "Trusted: catch_unwind semantics; the harness itself is built with the same profile. Strings longer than the bounds are covered only by the run-length and token-repetition families. Allocation failure (abort) is not modelled.",
         "DESIGN.md §4 C03",
